@@ -5,3 +5,4 @@ cd "$(dirname "$0")"
 export CARGO_NET_OFFLINE=true CARGO_TARGET_DIR=/verif/target
 cargo build --offline --release --manifest-path harness/Cargo.toml
 cargo build --offline --manifest-path harness/Cargo.toml
+cargo build --offline --release --manifest-path harness-adapt/Cargo.toml
